@@ -275,6 +275,7 @@ package slip
 // never replaced), and only the package's own tables otherwise change.
 //@ func slip.(*Package).Export
 //@   property C13
+//@   on-map-update vars#1 placeholder-is-the-packages-own: $owner == obj && $value.Pkg == obj && $value.Export
 //@   on-map-update vars keeps-users-own: $owner != obj ==> $was == nil
 //@   on-map-update funcs keeps-users-own: $owner != obj ==> $was == nil
 
